@@ -111,6 +111,18 @@ func directedRoots() []directed {
 		plainFile(b, "/usr/bin/one", 100)
 		return b
 	}
+	// a directory whose contents do not follow it at once in the archive: the sibling "d-x"
+	// sorts between "d" and "d/f" (recorded finding dir-mtime-noncontiguous of C07; this root
+	// is extracted in every tier so that the finding is seen by every run)
+	{
+		b := base()
+		b.dir("/opt/d")
+		b.objs[b.idx["/opt/d"]].Mtime = 1400000000
+		plainFile(b, "/opt/d/f", 10)
+		plainFile(b, "/opt/d-x", 10)
+		out = append(out, directed{"dir-mtime-sibling", finish(b, []centry{obj1, {"dir", "/opt/d", ""}, {"obj", "/opt/d/f", ""}, {"obj", "/opt/d-x", ""}},
+			nil, nil, nil, false, true)})
+	}
 	// block device reaches the list through the recursive /usr/local glob (#25)
 	{
 		b := base()
